@@ -50,13 +50,13 @@ type ReportCase struct {
 }
 
 var reportNames = []string{"default", "build", "lint", "test", "zeta", "Apple"}
-var reportDocs = []string{"", "Run the thing", "builds everything now", "x", "Lint all the Go code", "docs with  two spaces"}
+var reportDocs = []string{"", "Run the thing", "builds everything now", "x", "Lint all the Go code", "docs with  two spaces", "Reach 100% statement coverage", "%s %d %v"}
 var payloads = []payload{
 	{"", ""}, {"hello", "hello"}, {"two words", "two words"}, {`line1\nline2\n`, "line1\nline2\n"}, {"trail  ", "trail  "},
 	{`x=1;y`, "x=1;y"}, {`tab\there`, "tab\there"}, {`\n`, "\n"}, {"a|b&c", "a|b&c"}, {"  lead", "  lead"},
 }
 var reportVarNames = []string{"VERSION", "NAME", "other", "FLAG_X", "Zed"}
-var reportVarValues = []string{"0.3.0", "spok", "a b", "", "--flag=1", "x/y"}
+var reportVarValues = []string{"0.3.0", "spok", "a b", "", "--flag=1", "x/y", "50%", "%d%%"}
 
 func genReport(t *rapid.T) ReportCase {
 	c := ReportCase{}
@@ -105,13 +105,14 @@ func (c ReportCase) cmdText(ti, ci int, interpolated bool, vars map[string]strin
 	rc := c.Tasks[ti].Cmds[ci]
 	pre := ""
 	if rc.UseVar != "" {
+		// the value is an argument of printf, never part of its format string
 		if interpolated {
-			pre = vars[rc.UseVar]
+			pre = "printf '%s' '" + vars[rc.UseVar] + "' && "
 		} else {
-			pre = "{{." + rc.UseVar + "}}"
+			pre = "printf '%s' '{{." + rc.UseVar + "}}' && "
 		}
 	}
-	return fmt.Sprintf("echo %s >> $LOG && printf '%s%s' && printf '%s' >&2", rmarker(ti, ci), pre, rc.Out.Arg, rc.Err.Arg)
+	return fmt.Sprintf("echo %s >> $LOG && %sprintf '%s' && printf '%s' >&2", rmarker(ti, ci), pre, rc.Out.Arg, rc.Err.Arg)
 }
 
 func (c ReportCase) source() string {
